@@ -232,11 +232,22 @@ def searchFriendly (s1 s2 : List (Cmd Float)) (tol : Float) : Except PyErr (Opti
   orElseGate ((Aff.id : Aff Float).translate (m2.1 - m1.1) (m2.2 - m1.2)) s1 s2 tol
     (stage2 s1 s2 tol m1.1 m1.2 m2.1 m2.2)
 
+/-- the identity shortcut: equal command for command within the tolerance and — with arcs, whose rotation is an angle — equal
+    cubic forms too -/
+def identityHolds (d1 d2 : String) (p1 p2 : List (Cmd Float)) (tol : Float) : Except PyErr Bool :=
+  if !almostEquals tol p1 p2 then .ok false else
+  if hasArcLetter d1 then
+    SvgPath.arcsToCubics d1 >>= fun e1 => SvgPath.cmdsOf e1 >>= fun c1 =>
+    SvgPath.arcsToCubics d2 >>= fun e2 => SvgPath.cmdsOf e2 >>= fun c2 =>
+    .ok (almostEquals tol c1 c2)
+  else .ok true
+
 /-- `affine_between(s1, s2, tolerance)` on the d strings of `as_path()` -/
 def affineBetween (d1 d2 : String) (tol : Float) : Except PyErr (Option (Aff Float)) :=
   SvgPath.cmdsOf d1 >>= fun p1 =>
   SvgPath.cmdsOf d2 >>= fun p2 =>
-  if almostEquals tol p1 p2 then .ok (some Aff.id) else
+  identityHolds d1 d2 p1 p2 tol >>= fun same =>
+  if same then .ok (some Aff.id) else
   affineFriendly d1 >>= fun s1 =>
   affineFriendly d2 >>= fun s2 =>
   searchFriendly s1 s2 tol
